@@ -1492,3 +1492,32 @@ def pytest_config_getvalue(eng, args, kwargs, st, node):
     eng.ctx.sort('Val')
     eng.trusted_used.add('pytest: config.getvalue(name) is a function of the option name (uninterpreted pytest_option)')
     return [(VVal(eng.model_app('pytest_option', [key.t], 'Val')), st)]
+
+
+# ----------------------------------------------------------------- map(len, xs) / sum(ints)
+@func(map)
+def m_map(eng, args, kwargs, st, node):
+    f = args[0]
+    if len(args) == 2 and isinstance(f, VPy) and f.obj is len:
+        seq, elem = eng.seq_of(args[1], st)
+        if elem[0] == 'str':
+            r = eng.ctx.fresh('lens', '(Seq Int)')
+            i = smt.bound(eng.ctx, 'i', INT)
+            st.assume(Eq(Len(r), Len(seq)))
+            st.assume(smt.ForAll([i], Implies(And(Le(IntV(0), i), Lt(i, Len(seq))), Eq(At(r, i), Len(At(seq, i)))),
+                                 patterns=[[At(r, i)]]))
+            return [(st.alloc(HList(r, ('int',))), st)]
+    raise Undecided('map(%r, ...)' % (f,), node)
+
+
+@func(sum)
+def m_sum(eng, args, kwargs, st, node):
+    if len(args) == 1:
+        try:
+            seq, elem = eng.seq_of(args[0], st)
+        except Undecided:
+            seq = None
+        if seq is not None and elem[0] == 'int':
+            from . import specs_support
+            return [(specs_support.call_spec_by_name(eng, 'int_sum', [VSeq(seq, elem)], st, node), st)]
+    raise Undecided('sum(%r)' % (args,), node)
